@@ -862,7 +862,7 @@ class C17(Prop):
       own, _, tid, b, diff = min(failing, key=lambda x: (x[0], x[1]))
       m = b['mgr']
       how = 'exception' if str(b.get('exit', '')).startswith('exc') else 'normal'
-      sig = 'not-restored:%s:%s' % (m, how) if own == 0 else 'not-restored-other:%s:%s:%s' % (m, how, ','.join(diff))
+      sig = 'not-restored:%s:%s' % (m, how) if own == 0 else 'not-restored-other:' + ','.join(diff)
       return {'signature': sig,
               'what': 'thread %d: after leaving `with %s(%s)` (%s exit) the getters %s differ: before=%s after=%s'
                       % (tid, m, json.dumps(b['arg']), how, diff,
